@@ -173,7 +173,7 @@ def run(ctx: core.Ctx):
     for _ in range(400 if ctx.quick else 4000):
         n = rng.randint(1, 4)
         shift, scale = rng.choice([(F(0), F(1)), (F(-1), F(2)), (F(3), F(1, 2)), (F(-2), F(4))])
-        ag = rng.choice(["Maximum", "BoundedSum", "AlgebraicSum", "NilpotentMaximum", "DrasticSum"])
+        ag = rng.choice(["Maximum", "BoundedSum", "AlgebraicSum", "NilpotentMaximum", "DrasticSum", "UnboundedSum"])      # UnboundedSum: memberships above 1
         im = rng.choice(["Minimum", "AlgebraicProduct", "BoundedDifference", "DrasticProduct", "NilpotentMinimum"])
         # every second set mixes implications (two rule blocks with different implications concluding on one output), and the
         # same term may be activated more than once
@@ -246,7 +246,7 @@ def run(ctx: core.Ctx):
               lambda: fl.Ramp("e", lo + 0.9 * w, lo + 0.2 * w)]
         k = rng.randint(0, 4)
         im = getattr(fl, rng.choice(["Minimum", "AlgebraicProduct", "EinsteinProduct"]))
-        ag = getattr(fl, rng.choice(["Maximum", "AlgebraicSum", "BoundedSum", "EinsteinSum"]))
+        ag = getattr(fl, rng.choice(["Maximum", "AlgebraicSum", "BoundedSum", "EinsteinSum", "UnboundedSum"]))
         degs = [rng.choice([rng.random(), 1.0, 0.0, 1e-5, 2e-9, 0.5]) for _ in range(k)] if i % 4 else [rng.choice([1e-315, 3e-310, 5e-324, 1e-300, 0.0]) for _ in range(k)]   # every fourth set lives among the subnormal numbers
         tsel = [rng.randrange(len(mk)) for _ in range(k)]
         agg = fl.Aggregated("o", lo, hi, ag(), [fl.Activated(mk[t](), d, im()) for t, d in zip(tsel, degs)])
